@@ -72,6 +72,13 @@ def evaluate(case):
             break
     if fails:
         return fails
+    # "with the Lorch option": the option belongs to the call — the same object, asked next without it, returns the plain transform
+    import impl as _impl
+    _, vplain, eplain = t.fourier_transform(x, y, xo, xmax=xmax, dy_in=dy)
+    _, vfresh, efresh = type(t)().fourier_transform(x, y, xo, xmax=xmax, dy_in=dy)
+    if not (np.array_equal(vplain, vfresh, equal_nan=True) and np.array_equal(eplain, efresh, equal_nan=True)):
+        fails.append("fourier_transform without the Lorch option, on an object that just served lorch=True calls, differs from a new object's "
+                     "plain transform (the option stuck to the object)")
     hi = xmax if xmax is not None else float(x.max())
     w = weight(x, np.pi / hi)
     _, vp, ep = t.fourier_transform(x, w * y, xo, xmax=xmax, dy_in=None if dy is None else w * dy)
